@@ -249,6 +249,10 @@ F("NUMPYDOC-wrapped-return-prose", ALLP,
   "the return entry",
   ["RetKept.base", "RetKept.stop", "RetKept.ann", "RetKept.def", "ConfigTransparent"], when={"k": "numpydoc", "wrap": True, "retwrap": True},
   ret=[True, ANY, "own", ANY, ANY, ANY])
+F("FUNC-wrapped-summary-indent-drift", ALLP,
+  "function / method with emit_separating_tab: a one-line summary longer than the line is wrapped, and the indentation of its "
+  "continuation line grows with every emit / parse pass (the text never stabilises)",
+  ["TextStable"], when={"k": FUN, "xo": "septab", "sumwrap": True})
 F("WRAP-reference-already-deviates", ALLP,
   "the rendering without word wrap already deviates from the description (a clause failed at its own step, reported there); the "
   "wrapped rendering is compared with that reference and differs from it",
@@ -284,6 +288,8 @@ FIXED += [
 ]
 
 FIXED += [
+    "fixed: property=C08 20dac37 emit.class_(emit_call=True) on a class parsed from its own emission nested `def __call__` one level deeper on every pass",
+    "fixed: property=C06 b3a54b3 emit.class_(emit_call=True) raised KeyError when the return entry has no default",
     "fixed: property=C05 3f2428a parse.argparse_ast kept the line breaks of a word-wrapped help= text in the prose; the next docstring emitter wrote a broken entry",
     "fixed: property=C18 d11fcc3 ReST parser kept newline + indentation inside a wrapped :type / :rtype and in the :returns: prose (a type with a newline broke the next emitter; a `Defaults` / `to` break hid the return default)",
     "fixed: property=C18 b9d6a82 word wrap cut a word longer than the line in the middle (a long dotted type no longer parsed: SyntaxError)",
